@@ -10,7 +10,7 @@ EXTENDS MCBase
 
 V6 == Corpus("V6")
 E6 == Corpus("E6")
-NPos == 14
+NPos == 16
 
 VARIABLES c, phase
 vars == <<c, phase>>
@@ -23,12 +23,18 @@ ST == Str(<<116>>)
 SF == Str(<<102>>)
 
 \* the expression reaching the value, and the data it needs
+S_vsm1 == <<118, 115, 46, 45, 49>>      \* "vs.-1"
+S_vs == <<118, 115>>
 ExprOf(cc) == CASE cc.way = 1 -> V6[cc.i]
                 [] cc.way = 2 -> VarOf(S_v)
                 [] cc.way = 3 -> E6[cc.i]
+                [] cc.way = 4 -> VarOf(S_vsm1)                   \* a dotted path with a negative index
+                [] cc.way = 5 -> Op(K_var, <<IntV(-1)>>)         \* an integer key into array data
 DataOf(cc) == CASE cc.way = 1 -> Null
                 [] cc.way = 2 -> Obj(<< <<S_v, V6[cc.i]>> >>)
                 [] cc.way = 3 -> Obj(<<>>)
+                [] cc.way = 4 -> Obj(<< <<S_vs, Arr(<<IntV(0), V6[cc.i]>>)>> >>)
+                [] cc.way = 5 -> Arr(<<IntV(0), V6[cc.i]>>)
 \* the value reached (for way 3 through the specification itself)
 ValOf(cc) == IF cc.way = 3 THEN Eval(E6[cc.i], Obj(<<>>)).v ELSE V6[cc.i]
 
@@ -49,6 +55,9 @@ RuleOf(cc) ==
        [] cc.pos = 12 -> Op(K_map, <<Arr(<<D>>), Op(K_notnot, <<e>>)>>)
        [] cc.pos = 13 -> OpU(K_not, Op(K_not, <<e>>))
        [] cc.pos = 14 -> Op(K_and, <<I7, e, ST>>)
+       \* the bracket-less spelling (an array LITERAL cannot be written without brackets: it would be the operand list)
+       [] cc.pos = 15 -> IF e.t = "a" THEN Op(K_notnot, <<e>>) ELSE OpU(K_notnot, e)
+       [] cc.pos = 16 -> IF e.t = "a" THEN Op(K_not, <<e>>) ELSE OpU(K_not, e)
 
 \* what the statement's table dictates for each position
 Expected(cc) ==
@@ -69,8 +78,10 @@ Expected(cc) ==
        [] cc.pos = 12 -> Arr(<<Bool(t)>>)
        [] cc.pos = 13 -> Bool(t)
        [] cc.pos = 14 -> IF t THEN ST ELSE v
+       [] cc.pos = 15 -> Bool(t)
+       [] cc.pos = 16 -> Bool(~t)
 
-Family == [way : {1, 2}, i : 1..Len(V6), pos : 1..NPos] \cup [way : {3}, i : 1..Len(E6), pos : 1..NPos]
+Family == [way : {1, 2, 4, 5}, i : 1..Len(V6), pos : 1..NPos] \cup [way : {3}, i : 1..Len(E6), pos : 1..NPos]
 
 Init == c \in Family /\ phase = "new"
 Next == phase = "new" /\ phase' = "done" /\ UNCHANGED c
